@@ -134,11 +134,14 @@ fn strategy() -> impl Strategy<Value = Case> {
 }
 
 /// Large cohort: 150..700 samples, 1..3 records, one or two populations.
-fn large_strategy() -> impl Strategy<Value = Case> {
+pub fn large_strategy() -> impl Strategy<Value = Case> {
     (
-        150usize..=700,
+        // 515..522 samples: just above 1030 chromosomes, where C(t, m) overflows f64 for mid-range
+        // targets while the numerator binomials may not (the narrow band where a finite/inf slip shows)
+        prop_oneof![3 => 150usize..=700, 3 => 515usize..=560, 1 => 86usize..=149],
         prop::collection::vec(
-            (prop::collection::vec(gt_strategy(false, 20, 5), 700), 1u64..=3000, any::<u8>()),
+            // missingness is a property of the record: heavy, light, or none at all (complete cohort)
+            (prop_oneof![2 => prop::collection::vec(gt_strategy(false, 20, 5), 700), 1 => prop::collection::vec(gt_strategy(false, 1, 0), 700), 2 => prop::collection::vec(gt_strategy(false, 0, 0), 700)], 1u64..=3000, any::<u8>()),
             2..=6,
         ),
         any::<bool>(),
@@ -173,7 +176,22 @@ fn large_strategy() -> impl Strategy<Value = Case> {
                 labels: if two_pops { vec!["popA".into(), "popB".into()] } else { vec![] },
                 as_file: true,
             };
-            let m = resolve_targets(&cs, &map, &td);
+            let mut m = resolve_targets(&cs, &map, &td);
+            // overflow-band class: a mid-range target close to half of the called chromosomes of the
+            // anchor record (where C(t, m) is largest and overflows first)
+            if (515..=560).contains(&n) && td.global_mode % 2 == 0 {
+                let totals = called_totals(&cs, &map);
+                if let Some(t) = totals.get(pick_idx(td.record, totals.len().max(1))) {
+                    for j in 0..m.len() {
+                        let half = t[j] / 2;
+                        let off = (td.val[j] % 41) as usize;
+                        m[j] = (half + off).saturating_sub(20).min(2 * map.pop_sizes()[j]);
+                        if td.individuals {
+                            m[j] -= m[j] % 2;
+                        }
+                    }
+                }
+            }
             Case {
                 cs,
                 map,
@@ -355,8 +373,8 @@ pub fn check(ctx: &Ctx) -> Check {
         }),
         Box::new(RandomPart {
             name: "project-large-cohort",
-            rule: "cohorts of 150..700 samples (300..1400 chromosomes: the ln-gamma path and binomials beyond f64 range), 2..6 records with ~20% missing genotypes, one or two populations, targets as above, precision 10; tolerance 0.5e-10 + 1e-8(1+R)",
-            cases: ctx.tier.pick(64, 600),
+            rule: "cohorts of 86..700 samples (172..1400 chromosomes: the ln-gamma path beyond the 170! table and binomials beyond f64 range, with extra weight on 515..522 samples where only the denominator binomial overflows), 2..6 records with ~20% missing genotypes, one or two populations, targets as above, precision 10; tolerance 0.5e-10 + 1e-8(1+R)",
+            cases: ctx.tier.pick(96, 800),
             strategy: Box::new(|| large_strategy().boxed()),
             eval: Box::new(eval),
         }),
